@@ -158,15 +158,19 @@ Theorem C02_L2Ball_projection :
 Proof. exact @ball_spec_prox. Qed.
 Print Assumptions C02_L2Ball_projection.
 
-(** FULL STATEMENT for the code (radius * v / norm v for every v), refuted on the unchanged
-    tree (Findings/C02_L2Ball.v):
-      forall r lam v, 0 < r -> IsProx (inball r) (fun _ => 0) lam v (vscale (r / norm v) v).
-    Restricted to v on or outside the sphere: *)
-Theorem C02_L2Ball_code_restricted :
-  forall (S : InnerSpace) (r lam : R) (v : E), 0 < r -> r <= norm v ->
-    IsProx (inball r) (fun _ => 0) lam v (vscale (r / norm v) v).
-Proof. exact @ball_code_prox_restricted. Qed.
-Print Assumptions C02_L2Ball_code_restricted.
+(** L2BallIndicator.prox as the code computes it,
+    where(nrm <= radius, 1.0, radius / where(nrm > 0, nrm, 1.0)) * v, is the projection for
+    ALL v (inside, on, outside the sphere, v = 0) and every radius >= 0 *)
+Theorem C02_L2BallIndicator_code :
+  forall (S : InnerSpace) (r lam : R) (v : E), 0 <= r ->
+    IsProx (inball r) (fun _ => 0) lam v (vscale (ball_fac r (norm v)) v).
+Proof. exact @ball_code_prox. Qed.
+Print Assumptions C02_L2BallIndicator_code.
+
+Theorem C02_transfer_ball : forall r nv v : Qc,
+  inj (ball_code r nv v) = ball_code (inj r) (inj nv) (inj v).
+Proof. exact ball_transfer. Qed.
+Print Assumptions C02_transfer_ball.
 
 Theorem C02_ZeroFunctional :
   forall (S : InnerSpace) (lam : R) (v : E), IsProx Tr (fun _ => 0) lam v v.
